@@ -63,9 +63,35 @@ impl<'r> G<'r> {
             }
             self.nl();
         }
+        // the usual include guard around the whole file (semantically neutral)
+        let guarded = self.rng.chance(1, 2);
+        if guarded && !sub {
+            self.guarded_includes.push(rel.clone());
+        }
+        // a diamond: this file includes an earlier guarded file of the same directory again
+        if !sub && k >= 1 && !self.guarded_includes.is_empty() && self.rng.chance(1, 2) {
+            let earlier = self.guarded_includes[0].clone();
+            if earlier != rel {
+                self.put(&format!("include \"{}\"", earlier));
+                self.nl();
+                self.p.features.push("diamond-include");
+            }
+        }
+        if guarded {
+            let g = format!("GUARD_INC{}_TD", k);
+            self.put(&format!("#ifndef {}", g));
+            self.nl();
+            self.put(&format!("#define {}", g));
+            self.nl();
+            self.p.features.push("include-guard");
+        }
         let n = self.rng.range(1, 4);
         for _ in 0..n {
             self.toplevel_statement();
+        }
+        if guarded {
+            self.put("#endif // guard");
+            self.nl();
         }
         self.cur = parent;
         self.indent = saved_indent;
@@ -202,7 +228,13 @@ impl<'r> G<'r> {
                 }
                 // the gap through the next non-trivia token
                 let next = pieces.iter().find(|p| p.0 >= e && !matches!(p.2, crate::texts::PieceKind::Space | crate::texts::PieceKind::Comment));
-                let upto = next.map(|p| p.1).unwrap_or(text.len());
+                // a preprocessor directive is trivia for the parser: what follows the gap is then only known to
+                // lie somewhere behind it (up to the end of the file)
+                let upto = match next {
+                    Some(p) if text[p.0..p.1].starts_with('#') && p.1 - p.0 > 1 => text.len(),
+                    Some(p) => p.1,
+                    None => text.len(),
+                };
                 self.p.fault_sites.push(FaultSite { file: f, span: (s, e), replacement: String::new(), class: "syntax-delete-token", expect: (s, (upto - (e - s)).max(s + 1)) });
             }
             let words: Vec<(usize, usize)> = pieces.iter().filter(|p| p.2 == crate::texts::PieceKind::Word).map(|p| (p.0, p.1)).collect();
@@ -243,6 +275,13 @@ pub fn generate(rng: &mut Rng, cfg: Cfg) -> Program {
             includes_left -= 1;
         }
         g.toplevel_statement();
+        // the same guarded file included a second time: nothing new may come out of it
+        if !g.guarded_includes.is_empty() && g.rng.chance(1, 6) {
+            let again = g.guarded_includes[g.rng.below(g.guarded_includes.len())].clone();
+            g.put(&format!("include \"{}\"", again));
+            g.nl();
+            g.p.features.push("duplicate-include");
+        }
         let _ = i;
     }
     if g.cfg.dead_use {
